@@ -62,6 +62,10 @@ type c19Target struct {
 	panicsOnLength bool
 	// lengthLenient: inputs of the wrong length are not malformed for this API.
 	anyLength bool
+	// docPanic: the documented condition under which the entry point panics on this
+	// argument (e.g. a context longer than 255 bytes passed to verification); as with
+	// panicsOnLength the panic is recognised by the condition, never by its wording.
+	docPanic func(b []byte) bool
 }
 
 var (
@@ -720,7 +724,13 @@ func runC19(e *Env, r *core.Run) {
 		// control: the untouched artifact must be accepted.  If it is not, something
 		// other than C19 is broken on this tree; that is not this check's business.
 		var res c19Res
-		pan, pmsg := Guard(func() { res = tg.try(c, prev, a) })
+		returned, pan, pmsg := GuardTimeout(c19Timeout, func() { res = tg.try(c, prev, a) })
+		if !returned {
+			// not returning on a valid artifact is not returning on externally supplied bytes
+			r.Count(c19hang)
+			r.Fail("does-not-terminate", tg.name+"/none", "%s did not return within %v on a valid, untouched artifact %x (it normally takes microseconds)", tg.name, c19Timeout, a)
+			return
+		}
 		if pan {
 			// a panic on the untouched artifact is a panic on externally supplied bytes like any other
 			r.Fail("undocumented-panic", tg.name+"/none", "%s panicked on a valid, untouched artifact %x: %s", tg.name, a, pmsg)
@@ -732,7 +742,12 @@ func runC19(e *Env, r *core.Run) {
 			return
 		}
 		// what the receiver encodes to when it holds prev (for the "unchanged" alternative)
-		pan, _ = Guard(func() { res = tg.try(c, prev, prev) })
+		returned, pan, _ = GuardTimeout(c19Timeout, func() { res = tg.try(c, prev, prev) })
+		if !returned {
+			r.Count(c19hang)
+			r.Fail("does-not-terminate", tg.name+"/none", "%s did not return within %v on a valid, untouched artifact %x (it normally takes microseconds)", tg.name, c19Timeout, prev)
+			return
+		}
 		if !pan && res.ok && res.hasAfter {
 			prevAfter = res.after
 		}
@@ -775,7 +790,7 @@ func runC19(e *Env, r *core.Run) {
 			}
 		}
 		if pan {
-			if tg.panicsOnLength && len(b) != tg.size && !strings.HasPrefix(msg, "runtime error") {
+			if ((tg.panicsOnLength && len(b) != tg.size) || (tg.docPanic != nil && tg.docPanic(b))) && !strings.HasPrefix(msg, "runtime error") {
 				r.Count(c19docPanic)
 				return
 			}
